@@ -7,6 +7,7 @@ import (
 	"os"
 	"os/exec"
 	"path/filepath"
+	"regexp"
 	"sort"
 	"strconv"
 	"strings"
@@ -380,7 +381,7 @@ func (o *Outcome) TraceSig() string {
 		}
 		b.WriteString(e.Kind)
 		b.WriteByte(':')
-		b.WriteString(e.Site)
+		b.WriteString(maskSite(e.Site))
 		b.WriteByte(':')
 		b.WriteString(e.Decision)
 		if e.Kind == "write" {
@@ -407,3 +408,93 @@ func (o *Outcome) Crashed() (bool, string) {
 	}
 	return false, ""
 }
+
+// LibResult mirrors cmd/libsim's output.
+type LibResult struct {
+	Results []struct {
+		Job int    `json:"job"`
+		Out string `json:"out"`
+		Err string `json:"err"`
+	} `json:"results"`
+	Yields      int64    `json:"yields"`
+	Switches    int      `json:"switches"`
+	ScheduleSig string   `json:"schedule_sig"`
+	Sites       []string `json:"sites"`
+	Trace       []string `json:"trace"`
+	// filled by the driver
+	Exit     int
+	Signal   int
+	Stderr   []byte
+	TimedOut bool
+}
+
+// RunLib executes the libsim worker on a scenario in a fresh process and sandbox.
+func (w *World) RunLib(bin, mode string, sc *Scenario, jobIdx int, o RunOpts, extraEnv ...string) *LibResult {
+	root := w.sandbox(o.Slot)
+	_ = os.RemoveAll(root)
+	work := filepath.Join(root, "work")
+	if err := os.MkdirAll(work, 0755); err != nil {
+		harnessPanic("mkdir %v", err)
+	}
+	defer os.RemoveAll(root)
+	scPath := filepath.Join(root, "scenario.json")
+	if err := os.WriteFile(scPath, sc.JSON(), 0600); err != nil {
+		harnessPanic("write scenario %v", err)
+	}
+	args := []string{mode, scPath}
+	if mode == "solo" {
+		args = append(args, strconv.Itoa(jobIdx))
+	}
+	cmd := exec.Command(bin, args...)
+	cmd.Dir = work
+	var so, se bytes.Buffer
+	cmd.Stdout = &so
+	cmd.Stderr = &se
+	env := []string{"PATH=/usr/bin:/bin", "HOME=" + work, "TMPDIR=" + root, "TZ=UTC", "LANG=C"}
+	if o.GOMAXPROCS > 0 {
+		env = append(env, "GOMAXPROCS="+strconv.Itoa(o.GOMAXPROCS))
+	}
+	env = append(env, extraEnv...)
+	cmd.Env = env
+	cmd.SysProcAttr = &syscall.SysProcAttr{Setpgid: true}
+	if err := cmd.Start(); err != nil {
+		harnessPanic("start libsim %v", err)
+	}
+	done := make(chan error, 1)
+	go func() { done <- cmd.Wait() }()
+	res := &LibResult{}
+	var werr error
+	select {
+	case werr = <-done:
+	case <-time.After(60 * time.Second):
+		res.TimedOut = true
+		_ = syscall.Kill(-cmd.Process.Pid, syscall.SIGKILL)
+		werr = <-done
+	}
+	res.Stderr = se.Bytes()
+	if werr != nil {
+		if ee, ok := werr.(*exec.ExitError); ok {
+			ws := ee.Sys().(syscall.WaitStatus)
+			if ws.Signaled() {
+				res.Signal = int(ws.Signal())
+				res.Exit = -1
+			} else {
+				res.Exit = ws.ExitStatus()
+			}
+		} else {
+			harnessPanic("wait libsim %v", werr)
+		}
+	}
+	if res.Exit == 3 {
+		harnessPanic("libsim refused the scenario: %s", se.String())
+	}
+	if so.Len() > 0 {
+		_ = json.Unmarshal(so.Bytes(), res)
+	}
+	return res
+}
+
+var tempNameRe = regexp.MustCompile(`[^ :]*/temp\d+`)
+
+// maskSite hides the random temp-file names (drawn by the Go runtime, not by the simulator).
+func maskSite(site string) string { return tempNameRe.ReplaceAllString(site, "TEMPFILE") }
